@@ -12,6 +12,7 @@ import Mahotas.Proofs.C10Thin
 import Mahotas.Proofs.C10Cw
 import Mahotas.Proofs.C10Line
 import Mahotas.Proofs.C10Surf
+import Mahotas.Proofs.Modes
 open Mahotas Mahotas.C10
 
 /-! ## general index arithmetic -/
@@ -901,3 +902,12 @@ theorem C10_surf_descriptor_pinned_guard_insufficient :
   decide +kernel
 
 end SurfB9
+
+/-- **C10 (tie to the source, generated tables).** The code by which the models number a border mode is the code the
+current source gives it in both places: `mode2int` of `mahotas/_filters.py` (what the wrappers send) and
+`enum ExtendMode` of `mahotas/_filters.h` (what the kernels switch on); neither table has further entries. Both tables
+are regenerated from the source on every run. -/
+theorem C10_mode_codes_agree (m : Mahotas.Mode) :
+    (Mahotas.Generated.pyModes.lookup m.name = some m.code ∧ Mahotas.Generated.cppModes.lookup m.name = some m.code) ∧
+    Mahotas.Generated.pyModes.length = 6 ∧ Mahotas.Generated.cppModes.length = 6 :=
+  ⟨Mahotas.mode_codes_agree m, Mahotas.mode_tables_complete.1, Mahotas.mode_tables_complete.2.1⟩
